@@ -20,7 +20,7 @@ def funcs : List (String × String) := [
   ("internal/msgpipeline/check_runner.go:checkRunner.applyResults", "7aa5b1a3a230ef0d"),
   ("internal/msgpipeline/check_runner.go:checkRunner.checkBody", "772d1186a2a91890"),
   ("internal/msgpipeline/msgpipeline.go:msgpipelineDelivery.Body", "7dc627c0fe03620b"),
-  ("internal/msgpipeline/msgpipeline.go:msgpipelineDelivery.BodyNonAtomic", "9ef190be8c536e0f")
+  ("internal/msgpipeline/msgpipeline.go:msgpipelineDelivery.BodyNonAtomic", "7b9e7db40807d5d7")
 ]
 
 end MaddyVerif.Expect.FuncSkelC07
